@@ -53,6 +53,21 @@ pub fn handle(op: &str, a: &[&str]) -> Option<Resp> {
                         Err(_) => return Some(Resp::with("PANIC".into(), if wf { Some("wrap_and_sort panicked".into()) } else { None })),
                     }
                 }
+                // `Deb822::from_iter` of paragraphs parsed from texts (after audit C05 D1): a parsed
+                // paragraph may lack the terminator of its last line
+                ["b", ts @ ..] => {
+                    let texts: Vec<String> = ts.iter().map(|t| ds(t)).collect::<Option<_>>()?;
+                    let mut wf = true;
+                    let mut paras: Vec<Paragraph> = vec![];
+                    for s in &texts {
+                        wf = wf && !s.contains('\r');
+                        match Paragraph::from_str(s) {
+                            Ok(p) => paras.push(p),
+                            Err(_) => return Some(Resp::ok("START-UNREADABLE".to_string())),
+                        }
+                    }
+                    (paras.into_iter().collect(), wf)
+                }
                 ["d", d] => {
                     let d = dec_doc(d)?;
                     let ok = d.iter().all(|p| p.iter().all(|(k, v)| docspec::valid_key(k) && canon_value(v) && !v.is_empty() && !v.starts_with('\n')));
@@ -69,6 +84,20 @@ pub fn handle(op: &str, a: &[&str]) -> Option<Resp> {
             let mut outs = vec![format!("{}|{}", es(&doc.to_string()), show_handles(&handles))];
             let mut fail: Option<String> = None;
             let mut valid = in_domain;
+            // step 0: the start document itself prints to text that re-reads to its live content
+            if valid {
+                let text0 = doc.to_string();
+                let live0: Vec<Items> = doc.paragraphs().map(|p| p.items().collect::<Items>()).filter(|p| !p.is_empty()).collect();
+                match Deb822::from_str(&text0) {
+                    Err(_) => fail = Some(format!("start: printed document does not re-read: {:?}", text0)),
+                    Ok(d2) => {
+                        let re: Vec<Items> = d2.paragraphs().map(|p| p.items().collect()).collect();
+                        if re != live0 {
+                            fail = Some(format!("start: re-read content {:?} differs from live content {:?}", re, live0));
+                        }
+                    }
+                }
+            }
             let ops: Vec<&str> = if ops.is_empty() { vec![] } else { ops.split(',').collect() };
             for op in ops {
                 let before = doc.to_string();
@@ -301,6 +330,18 @@ fn start_states() -> Vec<String> {
     ];
     for d in docs {
         v.push(format!("d.{}", enc_doc(&d)));
+    }
+    // documents collected from parsed paragraphs, with and without the last line terminator
+    for ts in [
+        vec!["A: 1", "B: 2"],
+        vec!["A: 1\n", "B: 2"],
+        vec!["A: 1", "B: 2\n", "C: 3"],
+        vec!["A: 1\n c", "A: 2"],
+        vec!["A: 1\n# c", "B: 2"],
+        vec!["# lead\nA: 1", "B: 2\n"],
+        vec!["A: 1"],
+    ] {
+        v.push(format!("b.{}", ts.iter().map(|t| es(t)).collect::<Vec<_>>().join(".")));
     }
     v
 }
